@@ -8,6 +8,9 @@
      {"ev":"reset","case":n,"hdr":{"logline":line of the log event,"n":N,..}}
      {"ev":"ok_stream","id":n,"kind":"stream"|"query","filt":[[neg,e,a,c],..],"win":[a,b],"parsed":bool}   the reply announcing the id
      {"ev":"bin_msgs","id":n,"n":k,"msgs":[M,...]}      a DltMsgs frame as received (k = 0: end marker of a query)
+     {"ev":"bin_sum","id":n,"n":k,"first":i,"last":j,"inc":c}   big logs only (hdr.big = N > 0: N uniform messages, the log event
+                                               carries "uniform":[e,a,c] instead of the messages): summary of a DltMsgs frame - message
+                                               index of its first and last message, number of adjacent pairs whose index grows by 1
      {"ev":"ok_change","old":o,"id":n,"win":[a,b]}      reply to stream_change_window
      {"ev":"quiescent"}                        the file is parsed completely and the server loop has nothing more to send
      {"ev":"ok_search","id","start","max","filt","idxs":[..],"next":n|-1}   one page of stream_search
@@ -21,6 +24,8 @@
    min(b, |FL|), every listed field equal to the file's; at `quiescent` exactly [a, min(b,|FL|)) has been delivered;
    a window change renews the id and the same holds again for the new window.  A query's end marker: complete if the
    query was created on a completely parsed file (otherwise only the prefix property - narrower reading).
+   Big logs (windows of tens of thousands of messages): the frames must tile [a, min(b,|FL|)) exactly, in order, each
+   position once (field equality is checked on the small logs only).
    A search page examined the positions [start, X) (X = next, or the stream length when next is absent) and returns
    exactly the matching ones, at most `max`; index/time lookups return the first stream position not before the
    requested message / time.                                                                                   *)
@@ -32,12 +37,12 @@ CONSTANTS KF_C16_SearchNextSkips,    \* a full page returns next = (last returne
 
 Rec == ndJsonDeserialize(IOEnv.TRACE)
 
-VARIABLES l, case, phase, logline, cur, maxId, viol, kfUsed
-vars == <<l, case, phase, logline, cur, maxId, viol, kfUsed>>
+VARIABLES l, case, phase, logline, nbig, cur, maxId, viol, kfUsed
+vars == <<l, case, phase, logline, nbig, cur, maxId, viol, kfUsed>>
 \* cur: [id, kind, fl (1-based log positions kept by the filters), unf (no filters), a, b, del (delivered under id), live, full]
 
-NoCur == [id |-> 0, kind |-> "", fl |-> <<>>, unf |-> FALSE, a |-> 0, b |-> 0, del |-> 0, live |-> FALSE, full |-> FALSE]
-Init == /\ l = 1 /\ case = -1 /\ phase = "idle" /\ logline = 0 /\ cur = NoCur /\ maxId = 0 /\ viol = {} /\ kfUsed = {}
+NoCur == [id |-> 0, kind |-> "", fl |-> <<>>, slen |-> 0, unf |-> FALSE, a |-> 0, b |-> 0, del |-> 0, live |-> FALSE, full |-> FALSE]
+Init == /\ l = 1 /\ case = -1 /\ phase = "idle" /\ logline = 0 /\ nbig = 0 /\ cur = NoCur /\ maxId = 0 /\ viol = {} /\ kfUsed = {}
 
 Ev(e) == l <= Len(Rec) /\ Rec[l].ev = e /\ l' = l + 1
 Cur == Rec[l]
@@ -52,60 +57,70 @@ Keep(filt, m) == LET P == {k \in 1..Len(filt) : ~filt[k].neg}  Ng == {k \in 1..L
                  /\ ~(\E k \in Ng : FMatches(filt[k], m))
 Kept(filt) == SelectSeq([i \in 1..Len(Log) |-> i], LAMBDA i : Keep(filt, Log[i]))
 
-LogEv == /\ Ev("log") /\ phase \in {"idle", "ended", "rejected"} /\ UNCHANGED <<case, phase, logline, cur, maxId, viol, kfUsed>>
+LogEv == /\ Ev("log") /\ phase \in {"idle", "ended", "rejected"} /\ UNCHANGED <<case, phase, logline, nbig, cur, maxId, viol, kfUsed>>
 
-Reset == /\ Ev("reset") /\ case' = Cur.case /\ logline' = Cur.hdr.logline /\ cur' = NoCur /\ maxId' = 0 /\ phase' = "running"
+Reset == /\ Ev("reset") /\ case' = Cur.case /\ logline' = Cur.hdr.logline /\ nbig' = Cur.hdr.big /\ cur' = NoCur /\ maxId' = 0 /\ phase' = "running"
          /\ viol' = (IF phase = "running" THEN viol \cup {case} ELSE viol) /\ UNCHANGED kfUsed
 
 OkStream == /\ Ev("ok_stream") /\ phase = "running" /\ ~cur.live /\ Cur.id > maxId
-            /\ cur' = [id |-> Cur.id, kind |-> Cur.kind, fl |-> Kept(Cur.filt), unf |-> (Len(Cur.filt) = 0),
+            /\ LET kept == IF nbig > 0 THEN <<>> ELSE Kept(Cur.filt) IN
+               cur' = [id |-> Cur.id, kind |-> Cur.kind, fl |-> kept,
+                       slen |-> (IF nbig > 0 THEN (IF Keep(Cur.filt, Rec[logline].uniform) THEN nbig ELSE 0) ELSE Len(kept)),
+                       unf |-> (Len(Cur.filt) = 0),
                        a |-> Cur.win[1], b |-> Cur.win[2], del |-> 0, live |-> TRUE, full |-> Cur.parsed]
-            /\ maxId' = Cur.id /\ UNCHANGED <<case, phase, logline, viol, kfUsed>>
+            /\ maxId' = Cur.id /\ UNCHANGED <<case, phase, logline, nbig, viol, kfUsed>>
 
-WinEnd == Max2(cur.a, Min2(cur.b, Len(cur.fl)))          \* first stream position (0-based) not to be delivered
+WinEnd == Max2(cur.a, Min2(cur.b, cur.slen))          \* first stream position (0-based) not to be delivered
 
 SameMsg(o, m) == /\ o.i = m.i /\ o.rx = m.rx /\ o.ts = m.ts /\ o.e = m.e /\ o.a = m.a /\ o.c = m.c /\ o.mc = m.mc /\ o.h = m.h
 
-BinMsgs == /\ Ev("bin_msgs") /\ phase = "running" /\ cur.live /\ Cur.id = cur.id /\ Cur.n > 0
+BinMsgs == /\ Ev("bin_msgs") /\ phase = "running" /\ cur.live /\ Cur.id = cur.id /\ Cur.n > 0 /\ nbig = 0
            /\ cur.a + cur.del + Cur.n <= WinEnd                                  \* inside the window, nothing twice
            /\ \A j \in 1..Cur.n : SameMsg(Cur.msgs[j], Log[cur.fl[cur.a + cur.del + j]])   \* in order, fields equal
            /\ cur' = [cur EXCEPT !.del = @ + Cur.n]
-           /\ UNCHANGED <<case, phase, logline, maxId, viol, kfUsed>>
+           /\ UNCHANGED <<case, phase, logline, nbig, maxId, viol, kfUsed>>
+
+\* big uniform log: stream position p holds the message with index p; the frame is a gap-free run continuing the delivery
+BinSum == /\ Ev("bin_sum") /\ phase = "running" /\ cur.live /\ Cur.id = cur.id /\ Cur.n > 0 /\ nbig > 0
+          /\ cur.a + cur.del + Cur.n <= WinEnd
+          /\ Cur.first = cur.a + cur.del /\ Cur.last = Cur.first + Cur.n - 1 /\ Cur.inc = Cur.n - 1
+          /\ cur' = [cur EXCEPT !.del = @ + Cur.n]
+          /\ UNCHANGED <<case, phase, logline, nbig, maxId, viol, kfUsed>>
 
 EndMarker == /\ Ev("bin_msgs") /\ phase = "running" /\ cur.live /\ Cur.id = cur.id /\ Cur.n = 0 /\ cur.kind = "query"
              /\ (cur.full => cur.a + cur.del = WinEnd)
              /\ cur' = [cur EXCEPT !.live = FALSE]
-             /\ UNCHANGED <<case, phase, logline, maxId, viol, kfUsed>>
+             /\ UNCHANGED <<case, phase, logline, nbig, maxId, viol, kfUsed>>
 
 Quiescent == /\ Ev("quiescent") /\ phase = "running"
              /\ (cur.live => cur.a + cur.del = WinEnd)                           \* eventually: exactly the window
              /\ (~cur.live /\ cur.kind = "query" /\ cur.full => cur.a + cur.del = WinEnd)
-             /\ UNCHANGED <<case, phase, logline, cur, maxId, viol, kfUsed>>
+             /\ UNCHANGED <<case, phase, logline, nbig, cur, maxId, viol, kfUsed>>
 
 OkChange == /\ Ev("ok_change") /\ phase = "running" /\ cur.live /\ Cur.old = cur.id /\ Cur.id > maxId
             /\ cur' = [cur EXCEPT !.id = Cur.id, !.a = Cur.win[1], !.b = Cur.win[2], !.del = 0]
-            /\ maxId' = Cur.id /\ UNCHANGED <<case, phase, logline, viol, kfUsed>>
+            /\ maxId' = Cur.id /\ UNCHANGED <<case, phase, logline, nbig, viol, kfUsed>>
 
 \* ---- search: stream positions are 0-based indices into the stream's sequence (FL, or the whole log without filters)
-StreamLen == Len(cur.fl)
+StreamLen == cur.slen
 SMatches(sf, lo, hi) == SelectSeq([k \in 1..Max2(0, hi - lo) |-> lo + k - 1], LAMBDA p : Keep(sf, Log[cur.fl[p + 1]]))
 SearchCommon == /\ Ev("ok_search") /\ phase = "running" /\ cur.live /\ Cur.id = cur.id /\ cur.kind = "stream"
 OkSearch == /\ SearchCommon
             /\ Len(Cur.idxs) <= Max2(1, Cur.max)
             /\ IF Cur.next < 0 THEN Cur.idxs = SMatches(Cur.filt, Cur.start, StreamLen)
                ELSE /\ Cur.next > Cur.start /\ Cur.next <= StreamLen /\ Cur.idxs = SMatches(Cur.filt, Cur.start, Cur.next)
-            /\ UNCHANGED <<case, phase, logline, cur, maxId, viol, kfUsed>>
+            /\ UNCHANGED <<case, phase, logline, nbig, cur, maxId, viol, kfUsed>>
 KfSearchSkips == /\ SearchCommon /\ KF_C16_SearchNextSkips /\ ~cur.unf
                  /\ Cur.next >= 0 /\ Len(Cur.idxs) = Cur.max /\ Cur.max >= 1 /\ Cur.next = Cur.idxs[Len(Cur.idxs)] + 2
                  /\ Cur.next <= StreamLen
                  /\ Cur.idxs = SMatches(Cur.filt, Cur.start, Cur.next - 1)            \* the page itself is right,
                  /\ Keep(Cur.filt, Log[cur.fl[Cur.next]])                            \* position next-1 matches and is skipped
                  /\ kfUsed' = kfUsed \cup {[case |-> case, kf |-> "KF_C16_SearchNextSkips"]}
-                 /\ UNCHANGED <<case, phase, logline, cur, maxId, viol>>
+                 /\ UNCHANGED <<case, phase, logline, nbig, cur, maxId, viol>>
 KfSearchUnfiltered == /\ SearchCommon /\ KF_C16_SearchUnfiltered /\ cur.unf
                       /\ Cur.idxs = <<>> /\ Cur.next < 0 /\ SMatches(Cur.filt, Cur.start, StreamLen) # <<>>
                       /\ kfUsed' = kfUsed \cup {[case |-> case, kf |-> "KF_C16_SearchUnfiltered"]}
-                      /\ UNCHANGED <<case, phase, logline, cur, maxId, viol>>
+                      /\ UNCHANGED <<case, phase, logline, nbig, cur, maxId, viol>>
 
 \* ---- lookups: the first stream position whose message is not before the requested message index / time
 IndexPos(v) == Cardinality({p \in 1..StreamLen : Log[cur.fl[p]].i < v})
@@ -113,33 +128,33 @@ TimePos(v) == Cardinality({p \in 1..StreamLen : Log[cur.fl[p]].rx < v})
 BsCommon(e) == /\ Ev(e) /\ phase = "running" /\ cur.live /\ Cur.id = cur.id /\ cur.kind = "stream"
 OkBsearch == /\ BsCommon("ok_bsearch")
              /\ IF Cur.key = "index" THEN Cur.val < Len(Log) /\ Cur.pos = IndexPos(Cur.val) ELSE Cur.pos = TimePos(Cur.val)
-             /\ UNCHANGED <<case, phase, logline, cur, maxId, viol, kfUsed>>
+             /\ UNCHANGED <<case, phase, logline, nbig, cur, maxId, viol, kfUsed>>
 ErrBsearch == /\ BsCommon("err_bsearch") /\ Cur.key = "index" /\ Cur.val >= Len(Log)       \* no such message in the file
-              /\ UNCHANGED <<case, phase, logline, cur, maxId, viol, kfUsed>>
+              /\ UNCHANGED <<case, phase, logline, nbig, cur, maxId, viol, kfUsed>>
 KfIndexUnfiltered == /\ BsCommon("ok_bsearch") /\ KF_C16_IndexLookupUnfiltered /\ cur.unf /\ Cur.key = "index"
                      /\ Cur.val < Len(Log) /\ Cur.pos = 0 /\ IndexPos(Cur.val) # 0
                      /\ kfUsed' = kfUsed \cup {[case |-> case, kf |-> "KF_C16_IndexLookupUnfiltered"]}
-                     /\ UNCHANGED <<case, phase, logline, cur, maxId, viol>>
+                     /\ UNCHANGED <<case, phase, logline, nbig, cur, maxId, viol>>
 
 Stopped == /\ Ev("stopped") /\ phase = "running" /\ cur.live /\ Cur.id = cur.id
-           /\ cur' = [cur EXCEPT !.live = FALSE] /\ UNCHANGED <<case, phase, logline, maxId, viol, kfUsed>>
-End == /\ Ev("end") /\ phase = "running" /\ phase' = "ended" /\ UNCHANGED <<case, logline, cur, maxId, viol, kfUsed>>
+           /\ cur' = [cur EXCEPT !.live = FALSE] /\ UNCHANGED <<case, phase, logline, nbig, maxId, viol, kfUsed>>
+End == /\ Ev("end") /\ phase = "running" /\ phase' = "ended" /\ UNCHANGED <<case, logline, nbig, cur, maxId, viol, kfUsed>>
 
-Matched == \/ ENABLED OkStream \/ ENABLED BinMsgs \/ ENABLED EndMarker \/ ENABLED Quiescent \/ ENABLED OkChange
+Matched == \/ ENABLED OkStream \/ ENABLED BinMsgs \/ ENABLED BinSum \/ ENABLED EndMarker \/ ENABLED Quiescent \/ ENABLED OkChange
            \/ ENABLED OkSearch \/ ENABLED KfSearchSkips \/ ENABLED KfSearchUnfiltered
            \/ ENABLED OkBsearch \/ ENABLED ErrBsearch \/ ENABLED KfIndexUnfiltered \/ ENABLED Stopped \/ ENABLED End
 Reject == /\ l <= Len(Rec) /\ Cur.ev \notin {"reset", "log"} /\ phase = "running" /\ ~Matched
           /\ PrintT(<<"CASE_REJECTED", case, l, ToJson([event |-> Cur, id |-> cur.id, kind |-> cur.kind, a |-> cur.a, b |-> cur.b,
-                                                       delivered |-> cur.del, live |-> cur.live, stream_len |-> Len(cur.fl),
+                                                       delivered |-> cur.del, live |-> cur.live, stream_len |-> cur.slen,
                                                        fl_head |-> SubSeq(cur.fl, 1, Min2(12, Len(cur.fl)))])>>)
-          /\ l' = l + 1 /\ phase' = "rejected" /\ viol' = viol \cup {case} /\ UNCHANGED <<case, logline, cur, maxId, kfUsed>>
+          /\ l' = l + 1 /\ phase' = "rejected" /\ viol' = viol \cup {case} /\ UNCHANGED <<case, logline, nbig, cur, maxId, kfUsed>>
 SkipRest == /\ l <= Len(Rec) /\ Cur.ev \notin {"reset", "log"} /\ phase \in {"rejected", "ended", "idle"}
             /\ l' = l + 1
             /\ IF phase = "ended" THEN viol' = viol \cup {case} /\ phase' = "rejected" ELSE UNCHANGED <<viol, phase>>
-            /\ UNCHANGED <<case, logline, cur, maxId, kfUsed>>
+            /\ UNCHANGED <<case, logline, nbig, cur, maxId, kfUsed>>
 
 \* the strict reading is tried first: a deviation action only where no contract action matches
-Strict == OkStream \/ BinMsgs \/ EndMarker \/ Quiescent \/ OkChange \/ OkSearch \/ OkBsearch \/ ErrBsearch \/ Stopped \/ End
+Strict == OkStream \/ BinMsgs \/ BinSum \/ EndMarker \/ Quiescent \/ OkChange \/ OkSearch \/ OkBsearch \/ ErrBsearch \/ Stopped \/ End
 Next == \/ LogEv \/ Reset \/ Strict
         \/ (~ENABLED OkSearch /\ (KfSearchSkips \/ KfSearchUnfiltered))
         \/ (~ENABLED OkBsearch /\ KfIndexUnfiltered)
